@@ -1,10 +1,12 @@
 import ModbusModel.Model.Server
 import ModbusModel.Lemmas.Framed
+import ModbusModel.Props.C01
+import ModbusModel.Lemmas.ServeEnd
 /-
   C14 – A server connection ends cleanly or with one error report; the server lives on.
 -/
 namespace Modbus.Props.C14
-open Modbus
+open Modbus Modbus.Props.C01
 
 /-- connections for which a task is spawned -/
 def accepted : List Setup → List Nat
@@ -72,6 +74,129 @@ theorem declined_goes_on (k : Kind) (svc : Service) (fuel idx : Nat) (f : Server
 theorem awaitNext_server_no_panic (k : Kind) (fd : FrameDecoder) (r : ReadFrame) (evs : List ReadEv)
     (h : (serverDecoder k).NoPanic) : (awaitNext (serverDecoder k) fd r evs).1 ≠ .panic :=
   awaitNext_ne_panic _ h evs fd r
+
+theorem tcpServerFraming_strict : tcpServerFraming.Strict := by
+  rintro s p q ⟨hdr, r, hs, _, hf⟩ hq
+  refine ⟨s, ?_⟩
+  have hp : p <+: tcpFrame hdr (encodeRequestPdu r) := ⟨q, hf⟩
+  have hne : p ≠ tcpFrame hdr (encodeRequestPdu r) := by
+    intro e
+    have := congrArg List.length hf
+    rw [← e] at this
+    simp at this
+    exact hq this
+  have h1 := server_waits_for_whole_frame_tcp hdr r p hs hp hne
+  simp only [serverDecoder]
+  rw [h1]
+  simp [Res.map]
+
+theorem rtuServerFraming_strict : rtuServerFraming.Strict := by
+  rintro fd p q ⟨slave, r, hs, ht, hf⟩ hq
+  refine ⟨fd, ?_⟩
+  have hp : p <+: rtuFrame slave (encodeRequestPdu r) := ⟨q, hf⟩
+  have hne : p ≠ rtuFrame slave (encodeRequestPdu r) := by
+    intro e
+    have := congrArg List.length hf
+    rw [← e] at this
+    simp at this
+    exact hq this
+  have hl : requestPduLen (rtuFrame slave (encodeRequestPdu r)) = .ok (some (encodeRequestPdu r).length) := by
+    have := Modbus.Props.C11.request_table_agrees slave r [] hs ht
+    simpa [rtuFrame, List.append_assoc] using this
+  have h1 := rtuDecode_waits requestPduLen requestPduLen_stable fd slave _ p hl hp hne
+  simp only [serverDecoder, rtuServerDecode]
+  rw [h1]
+  simp [Res.map]
+
+/-- **a TCP connection that the peer closes**: after `reqs` complete well-formed requests and
+    `tail` more bytes (the whole stream cut into reads in any way), the peer closes the stream.
+    On a frame boundary the task ends silently, inside a request frame with one error; either way
+    exactly the complete requests were served – each once, in order, replies under their own
+    headers – and nothing after that point. -/
+theorem connection_end_tcp (svc : Service) (reqs : List (TcpHeader × Request)) (tail q : Bytes)
+    (t : Transport) (feeds rest : List ReadEv)
+    (hs : ∀ p ∈ reqs, requestPduSizeRaw p.2 ≤ 253) (hc : ∀ p ∈ reqs, p.2.canonical)
+    (hw : t.writes = []) (hf : t.flushes = [])
+    (hreads : t.reads = feeds ++ .eof :: rest) (hfeed : ∀ e ∈ feeds, e.isFeed = true)
+    (hdata : dataOf feeds = (reqs.map fun p => tcpFrame p.1 (encodeRequestPdu p.2)).flatten ++ tail)
+    (htail : tail = [] ∨ (tail ≠ [] ∧ q ≠ [] ∧ ∃ hdr r, requestPduSizeRaw r ≤ 253 ∧ r.canonical
+        ∧ tail ++ q = tcpFrame hdr (encodeRequestPdu r)))
+    (henc : Encodable .tcp svc 0 (reqs.map fun p => ({ tid := p.1.transactionId, unit := p.1.unitId }, p.2))) :
+    (process .tcp svc t).2.1
+        = expectedTrace .tcp svc 0 (reqs.map fun p => ({ tid := p.1.transactionId, unit := p.1.unitId }, p.2))
+    ∧ (process .tcp svc t).1 = (if tail = [] then .finished else .failed .other) := by
+  have hitems : (reqs.map fun p => tcpFrame p.1 (encodeRequestPdu p.2)).map tcpServerFraming.item
+      = reqs.map fun p => ({ tid := p.1.transactionId, unit := p.1.unitId }, p.2) := by
+    rw [List.map_map]
+    apply List.map_congr_left
+    intro p hp
+    have h3 := server_decodes_request_tcp p.1 p.2 [] (hs p hp) (hc p hp)
+    simp only [List.append_nil] at h3
+    simp [tcpServerFraming, Framing.ofStrict, h3]
+  have hv : ∀ x ∈ (reqs.map fun p => tcpFrame p.1 (encodeRequestPdu p.2)), tcpServerFraming.Valid x := by
+    intro x hx
+    obtain ⟨p, hp, rfl⟩ := List.mem_map.mp hx
+    exact ⟨p.1, p.2, hs p hp, hc p hp, rfl⟩
+  have hne : ∀ x ∈ (reqs.map fun p => tcpFrame p.1 (encodeRequestPdu p.2)), x ≠ [] := by
+    intro x hx
+    obtain ⟨p, _, rfl⟩ := List.mem_map.mp hx
+    simp [tcpFrame, be16]
+  have henc' : Encodable .tcp svc 0 ((reqs.map fun p => tcpFrame p.1 (encodeRequestPdu p.2)).map tcpServerFraming.item) := by
+    rw [hitems]; exact henc
+  have htail' : tail = [] ∨ (tail ≠ [] ∧ q ≠ [] ∧ tcpServerFraming.Valid (tail ++ q)) := by
+    rcases htail with h | ⟨h1, h2, hdr, r, h3, h4, h5⟩
+    · exact Or.inl h
+    · exact Or.inr ⟨h1, h2, hdr, r, h3, h4, h5⟩
+  have H0 := process_serves_then_eof .tcp tcpServerFraming tcpServerFraming_strict svc
+    (reqs.map fun p => tcpFrame p.1 (encodeRequestPdu p.2)) tail q t feeds rest
+  have H := H0 hv hne hw hf hreads hfeed hdata htail' henc'
+  rw [hitems] at H
+  exact H
+
+/-- **an RTU connection (RTU-over-TCP, serial: the same loop and codec) whose stream ends**: after `reqs` complete well-formed requests and
+    `tail` more bytes (the whole stream cut into reads in any way), the peer closes the stream.
+    On a frame boundary the task ends silently, inside a request frame with one error; either way
+    exactly the complete requests were served – each once, in order, replies under their own
+    headers – and nothing after that point. -/
+theorem connection_end_rtu (svc : Service) (reqs : List (UInt8 × Request)) (tail q : Bytes)
+    (t : Transport) (feeds rest : List ReadEv)
+    (hs : ∀ p ∈ reqs, requestPduSizeRaw p.2 ≤ 253) (hc : ∀ p ∈ reqs, ∀ fc d, p.2 ≠ .custom fc d)
+    (hw : t.writes = []) (hf : t.flushes = [])
+    (hreads : t.reads = feeds ++ .eof :: rest) (hfeed : ∀ e ∈ feeds, e.isFeed = true)
+    (hdata : dataOf feeds = (reqs.map fun p => rtuFrame p.1 (encodeRequestPdu p.2)).flatten ++ tail)
+    (htail : tail = [] ∨ (tail ≠ [] ∧ q ≠ [] ∧ ∃ hdr r, requestPduSizeRaw r ≤ 253 ∧ (∀ fc d, r ≠ .custom fc d)
+        ∧ tail ++ q = rtuFrame hdr (encodeRequestPdu r)))
+    (henc : Encodable .rtu svc 0 (reqs.map fun p => ({ tid := 0, unit := p.1 }, p.2))) :
+    (process .rtu svc t).2.1
+        = expectedTrace .rtu svc 0 (reqs.map fun p => ({ tid := 0, unit := p.1 }, p.2))
+    ∧ (process .rtu svc t).1 = (if tail = [] then .finished else .failed .other) := by
+  have hitems : (reqs.map fun p => rtuFrame p.1 (encodeRequestPdu p.2)).map rtuServerFraming.item
+      = reqs.map fun p => ({ tid := 0, unit := p.1 }, p.2) := by
+    rw [List.map_map]
+    apply List.map_congr_left
+    intro p hp
+    have h3 := server_decodes_request_rtu {} p.1 p.2 [] (hs p hp) (hc p hp)
+    simp only [List.append_nil] at h3
+    simp [rtuServerFraming, Framing.ofStrict, h3]
+  have hv : ∀ x ∈ (reqs.map fun p => rtuFrame p.1 (encodeRequestPdu p.2)), rtuServerFraming.Valid x := by
+    intro x hx
+    obtain ⟨p, hp, rfl⟩ := List.mem_map.mp hx
+    exact ⟨p.1, p.2, hs p hp, hc p hp, rfl⟩
+  have hne : ∀ x ∈ (reqs.map fun p => rtuFrame p.1 (encodeRequestPdu p.2)), x ≠ [] := by
+    intro x hx
+    obtain ⟨p, _, rfl⟩ := List.mem_map.mp hx
+    simp [rtuFrame]
+  have henc' : Encodable .rtu svc 0 ((reqs.map fun p => rtuFrame p.1 (encodeRequestPdu p.2)).map rtuServerFraming.item) := by
+    rw [hitems]; exact henc
+  have htail' : tail = [] ∨ (tail ≠ [] ∧ q ≠ [] ∧ rtuServerFraming.Valid (tail ++ q)) := by
+    rcases htail with h | ⟨h1, h2, hdr, r, h3, h4, h5⟩
+    · exact Or.inl h
+    · exact Or.inr ⟨h1, h2, hdr, r, h3, h4, h5⟩
+  have H0 := process_serves_then_eof .rtu rtuServerFraming rtuServerFraming_strict svc
+    (reqs.map fun p => rtuFrame p.1 (encodeRequestPdu p.2)) tail q t feeds rest
+  have H := H0 hv hne hw hf hreads hfeed hdata htail' henc'
+  rw [hitems] at H
+  exact H
 
 -- non-vacuity
 example : serve [.accepted 0, .rejected, .accepted 1, .setupFailed (.injected 3), .accepted 2]
